@@ -498,6 +498,17 @@ class Evaluator:
             return r if c[1] == "is" else not r
         if c[0] == "cmp" and c[1] in ("is", "is not") and is_const(c[3], None) and c[2][0] in ("tuple", "list", "dict", "closure", "call", "binop", "lanes", "stack"):
             return c[1] == "is not"
+        if c[0] == "cmp" and c[1] in ("is", "is not") and is_const(c[3], None) and c[2][0] == "name":
+            # a reference to a function or class (repo-local, or an external class such as tfd.Normal) is never None
+            nm = c[2][1]
+            known = False
+            if nm.startswith("genjax."):
+                r = self.p.lookup(nm)
+                known = (r is not None and r[0] in ("func", "class", "method")) or (r is None and ".tfd." in nm and nm.rsplit(".", 1)[-1][:1].isupper())
+            elif not nm.startswith("?."):
+                known = nm.rsplit(".", 1)[-1][:1].isupper()
+            if known:
+                return c[1] == "is not"
         return None
 
     def assigned_names(self, stmts):
@@ -1000,6 +1011,22 @@ class Evaluator:
                 it = self.known_items(args[0])
                 if it is not None:
                     return C(len(it))
+            if nm == "builtins.getattr" and len(args) in (2, 3) and args[1][0] == "const" and isinstance(args[1][1], str) and not kwargs:
+                return self.attr(args[0], args[1][1], fr)
+            # the operator module: function spellings of Python's own operators
+            if nm.startswith("operator.") and not kwargs:
+                op = nm.split(".", 1)[1]
+                if op in ("neg", "pos", "not_", "invert") and len(args) == 1:
+                    return ("unop", {"neg": "-", "pos": "+", "not_": "not", "invert": "~"}[op], args[0])
+                BIN = {"add": "+", "sub": "-", "mul": "*", "truediv": "/", "floordiv": "//", "mod": "%", "pow": "**", "matmul": "@",
+                       "and_": "&", "or_": "|", "xor": "^"}
+                if op in BIN and len(args) == 2:
+                    return ("binop", BIN[op], args[0], args[1])
+                if op == "getitem" and len(args) == 2:
+                    return self.index(args[0], args[1])
+                CMP = {"eq": "==", "ne": "!=", "lt": "<", "le": "<=", "gt": ">", "ge": ">=", "is_": "is", "is_not": "is not"}
+                if op in CMP and len(args) == 2:
+                    return ("cmp", CMP[op], args[0], args[1])
             if nm == "builtins.tuple" and len(args) == 1:
                 it = self.known_items(args[0])
                 if it is not None:
@@ -1044,6 +1071,11 @@ class Evaluator:
                 return ("tuple", (r, ("collected", stid)))
         if fn[0] == "partial":
             return self.call_term(fn[1], fn[2] + tuple(args), fn[3] + tuple(kwargs), fr, node)
+        if fn[0] == "call" and fn[1] == ("name", "operator.itemgetter") and len(fn[2]) == 1 and len(args) == 1 and not kwargs:
+            return self.index(args[0], fn[2][0])
+        if fn[0] == "call" and fn[1] == ("name", "operator.attrgetter") and len(fn[2]) == 1 and fn[2][0][0] == "const" \
+                and isinstance(fn[2][0][1], str) and "." not in fn[2][0][1] and len(args) == 1 and not kwargs:
+            return ("attr", args[0], fn[2][0][1])
         # --- forwarding method on self (whitelisted per rule)
         if fn[0] == "attr" and fn[1] == ("param", "self") and fr is not None and fr.cls and depth < self.max_inline_depth and \
                 (fn[2] in self.self_inline or (self.auto_inline_private and fn[2].startswith("_") and not fn[2].startswith("__")
@@ -1236,7 +1268,15 @@ class Evaluator:
             r = self.apply_closure(f, leaves, ())
             rec["body_summary"] = getattr(self, "last_closure_summary", None)
         else:
-            r = ("call", f, leaves, ())
+            # functools.partial(g, a...) or a (private / summarised) named function applied leafwise: reduced like any other call
+            r = None
+            if f[0] in ("partial", "name") and len(self._inlining) < self.max_inline_depth + 2:
+                try:
+                    r = self.call_term(f, leaves, (), None, None)
+                except Exception:
+                    r = None
+            if r is None:
+                r = ("call", f, leaves, ())
         if r is None:
             return None
         rec["body"] = r
